@@ -1,1 +1,10 @@
-/- C05 — property theorems (stub: the slice is not built yet). -/
+import GB.C05.Proofs
+/-
+  C05 — property theorems. Theorems only; helper lemmas live in Proofs.lean.
+-/
+open GB GB.C05
+
+/-- `parseBinding` reads the google.api.http pattern oneof as http.proto prescribes. -/
+theorem C05_binding_get (p b r : Bytes) :
+    parseBinding { pattern := .get p, body := b, responseBody := r } =
+      { httpMethod := [71, 69, 84], pattern := p, requestBodyPath := b, responseBodyPath := r } := rfl
